@@ -307,6 +307,17 @@ INT_SHAPES = {
 }
 
 
+def _int_source(iw, s: str):
+    """pt / pts / arr: integer-typed coordinates; idx: positions; float: a real-valued array (fitted values); coef: (b, m) reals."""
+    if s == "idx":
+        return iw.index("arr")
+    if s == "float":
+        return iw.V("F", None, "arr")
+    if s == "coef":
+        return iw.V("T", None, None, (iw.V("F", None, "sc"), iw.V("F", None, "sc")))
+    return iw.coord(s)
+
+
 def _sec_intwidth(rc: RuleCtx, rule: str = "N-int", table=None):
     """With an integer-typed curve every + - * ** between integer operands is 64-bit integer arithmetic that wraps around
     silently: the primitives must do their products in floating point (or keep the integer intermediates small)."""
@@ -322,7 +333,7 @@ def _sec_intwidth(rc: RuleCtx, rule: str = "N-int", table=None):
         if missing:
             raise AnalysisError(f"{q}: parameter(s) {missing} of the N-int table no longer exist - shape not recognised")
         n0 = len(an.findings)
-        an.function(fi, {p: iw.coord(s) for p, s in shapes.items()})
+        an.function(fi, {p: _int_source(iw, s) for p, s in shapes.items()})
         done += 1
         if len(an.findings) == n0:
             res.ok(rule, q, "every integer-kinded intermediate stays below 2**63 for 30-bit inputs (or the arithmetic is done in floating point)")
